@@ -186,6 +186,25 @@ def sources(draw, nfilt, k=None, logmodels=None, min_fit=2, flags=None, distance
             'flag_dtype': draw(FLAG_DTYPES)}
 
 
+def tabulated_wav(f):
+    """the wavelength the cube tabulates for a filter that is fitted at f['wav'] (see off_grid_requests)"""
+    return f['wav'] * f.get('tab_offset', 1.)
+
+
+def off_grid_requests(draw, c):
+    """Cube packages fitted at wavelengths: the wavelength asked for need not be a tabulated one - the nearest slice of the
+    cube is used, while everything that depends on the wavelength itself (the extinction coefficient) belongs to the
+    wavelength asked for. Here the cube is tabulated a few per cent off the fit wavelengths, far inside the half-way points
+    to the neighbouring slices."""
+    if c['format'] not in ('v2wav', 'v2mixed'):
+        return
+    w = sorted(f['wav'] for f in c['filters'])
+    if any(b / a < 1.25 for a, b in zip(w, w[1:])) or not draw(st.booleans()):
+        return
+    for f in c['filters']:
+        f['tab_offset'] = draw(st.sampled_from([1., 0.97, 1.03, 1.015]))
+
+
 FLAG_DTYPES = st.sampled_from(['int', 'int', 'int', 'int32', 'int16', 'int8', 'uint8', 'uint16', 'float'])
 
 
@@ -356,7 +375,7 @@ def build_package_2d(model_dir, case):
                                   gz=comp in ('convolved', 'both'), unit=cunit)
     if fmt != 'v1':
         order = sorted(range(len(filters)), key=lambda j: filters[j]['wav'])
-        wav = [filters[j]['wav'] for j in order]
+        wav = [tabulated_wav(filters[j]) for j in order]
         val = [[[flux[m][j] * vfac for j in order]] for m in range(len(names))]
         unc = [[[0.1 * flux[m][j] * vfac for j in order]] for m in range(len(names))]
         pkgio.write_cube(os.path.join(model_dir, 'flux.fits'), names, wav, None, val, unc, valid=cube_valid_flags(case),
@@ -597,7 +616,7 @@ def build_package_3d(model_dir, case):
                                   gz=comp in ('convolved', 'both'), unit=cunit)
     if fmt != 'v1':
         order = sorted(uniq, key=lambda j: filters[j]['wav'])
-        wav = [filters[j]['wav'] for j in order]
+        wav = [tabulated_wav(filters[j]) for j in order]
         val = [[[grid['flux'][m][j][a] * vfac for j in order] for a in aidx] for m in range(len(names))]
         unc = [[[0.05 * v for v in row] for row in mod] for mod in val]
         unit = case.get('ap_unit', 'AU')
